@@ -35,3 +35,11 @@ package core
 //@   atcall Read#1 after: assert @C01: res1 == nil ==> keys.SharedSecret == secretSlice && keys.Reader == cjHkdf && len(keys.ConjureSeed) == 16 && string(keys.ConjureSeed) == streamBytes(hkdfStream(secretStr, saltStr, ""), 0, 16) && streamOf(cjHkdf) == hkdfStream(secretStr, saltStr, "") && drawn(cjHkdf) == 16
 //@   atcall Read#1 after: snap drew := true
 //@   ensures @C01: result1 == nil ==> result0 != nil && defined(drew)
+
+// the connection tag function both sides share: HMAC-SHA256 of the label under the shared secret
+//@ ghost func hmacTag(key string, label string) string
+//@ func ConjureHMAC(key []byte, str string) []byte
+//@   ensures @DET: string(result) == hmacTag(old(string(key)), str)
+//@   ensures len(result) == 32
+//@   assigns nothing
+//@   trusted
